@@ -12,7 +12,7 @@ from __future__ import annotations
 
 import ast
 
-from .model import Model, Func, norm
+from .model import Model, Func, norm, call_args
 from .report import Ob, OK, VIOLATED, ERROR, INFO
 
 
@@ -237,7 +237,7 @@ def rule_arnoldi_seed(model: Model):
     # the divisor must be the norm of the seeded vector
     defs = [n for n in ast.walk(f.node) if isinstance(n, ast.Assign) and norm(n.targets[0]) == norm(seed[1]) and _is_norm_call(n.value)]
     base = norm(seed[2]).split("[")[0]
-    of_seed = bool(defs) and all(norm(d.value.args[0]) == base for d in defs)
+    of_seed = bool(defs) and all(call_args(d.value, "norm") and norm(call_args(d.value, "norm")[0]) == base for d in defs)
     # the seeded vector is the residual of the initial guess: b - A x0 (gmres_restart re-enters with the previous iterate as x0)
     params = f.params()
     seed_name = base
@@ -275,12 +275,12 @@ def rule_enrich_width(model: Model, short: str):
                 and n.value.args):
             continue
         cat = n.value.args[0]
-        if not (isinstance(cat, ast.Call) and norm(cat.func).rsplit(".", 1)[-1] in ("cat", "concat", "hstack") and cat.args and isinstance(cat.args[0], (ast.Tuple, ast.List))):
+        if not (isinstance(cat, ast.Call) and norm(cat.func).rsplit(".", 1)[-1] in ("cat", "concat", "concatenate", "hstack") and cat.args and isinstance(cat.args[0], (ast.Tuple, ast.List))):
             continue
-        blocks = [x for x in cat.args[0].elts if isinstance(x, ast.Call) and norm(x.func).endswith("reshape") and x.args and isinstance(x.args[0], ast.Name)]
+        blocks = [x for x in cat.args[0].elts if isinstance(x, ast.Call) and call_args(x, "reshape") and isinstance(call_args(x, "reshape")[0], ast.Name)]
         if not blocks:
             continue
-        B = blocks[0].args[0].id
+        B = call_args(blocks[0], "reshape")[0].id
         bdef = max((m for m in ast.walk(f.node) if isinstance(m, ast.Assign) and isinstance(m.targets[0], ast.Name) and m.targets[0].id == B and m.lineno < n.lineno),
                    key=lambda m: m.lineno, default=None)
         pad_names = {x.id for z in ast.walk(f.node) if isinstance(z, ast.Call) and norm(z.func).endswith("zeros") and z.args and z.lineno > n.lineno
